@@ -10,7 +10,7 @@ use crate::core::{Check, Ctx, Report, Rng};
 use crate::hooks::Hooks;
 use crate::world::build::Builder;
 use crate::world::oracle::*;
-use crate::world::run::{run_engine, Env};
+use crate::world::run::{run_engine, run_engine_retrying, Env};
 use crate::world::spec::*;
 use super::worlds::ec_hex;
 
@@ -627,12 +627,12 @@ pub const C41: Check = Check {
     id: "C41",
     level: "exploration",
     rule: "metamorphic pairs on fresh caches: world W (several repositories) vs W' = W + a fault placed in one repository \
-           (unreachable, every manifest of that repository absent/garbage/stale, bad objects, missing files, a chain of valid CAs deeper than max-ca-depth, a certificate loop, or - the repository being served via RRDP - a misbehaving RRDP server: wrong snapshot hash, 304 to an unconditional request, broken XML, wrong session, HTTP 500, truncated snapshot). For every CA not \
+           (unreachable, every manifest of that repository absent/garbage/stale, bad objects, missing files, a chain of valid CAs deeper than max-ca-depth, a certificate loop, or - the repository being served via RRDP - a misbehaving RRDP server: wrong snapshot hash, 304 to an unconditional request, broken XML, wrong session, HTTP 500, truncated snapshot; or the same world run twice over one cache with the repository's local RRDP archive damaged in between: state record unparsable or missing, illegal object header, flipped data byte). For every CA not \
            published in that repository and not a descendant of one, the served per-CA payload (attribution by the generator's \
            per-CA origin AS ranges) must be identical in both runs (under unsafe-vrps=reject minus VRPs overlapping the affected \
            CAs' resources), and the faulty run must succeed. distinct = (fault kind, repositories, policy, affected/unaffected CA \
            counts) classes",
-    assumptions: &["corrupt local RRDP archives (retry-once behaviour) are exercised by the subprocess legs"],
+    assumptions: &["the damaged-local-archive leg (kind 8) changes bytes inside the archive's extent only and drives the second run the way the one-shot commands do (retryable failure -> Engine::sanitize -> one more run); a truncated archive is an I/O error, which Routinator treats as fatal by design (C27: 'ends the run with a reported error'), and is not exercised here"],
     shards: |_| 16,
     watchdog: |t| Duration::from_secs(t.pick(600, 3600)),
     budget: |t| Duration::from_secs(t.pick(40, 300)),
@@ -647,6 +647,50 @@ fn per_ca(o: &Observed) -> BTreeMap<usize, BTreeSet<Vrp>> {
     m
 }
 
+/// Damages the RRDP archive(s) kept for `host` under `rrdp_dir` without changing their length: walks the object
+/// sequence (magic 6, hash key 16, bucket count 8, index (buckets+1)*8, then objects of header 33 = size 8, next 8,
+/// empty 1, name_len 8, data_len 8 followed by name, 32 bytes of meta and the data) and applies one of four faults.
+/// Returns the fault's name.
+fn corrupt_local_archive(rrdp_dir: &std::path::Path, host: &str, rng: &mut Rng) -> Option<String> {
+    let mut files = Vec::new();
+    for d in std::fs::read_dir(rrdp_dir).ok()?.flatten() {
+        if !d.file_name().to_string_lossy().to_ascii_lowercase().contains(host) { continue }
+        for f in std::fs::read_dir(d.path()).ok()?.flatten() { if f.path().is_file() { files.push(f.path()); } }
+    }
+    if files.is_empty() { return None }
+    let mode = rng.usize(4);
+    let mut done = None;
+    for path in files {
+        let mut data = std::fs::read(&path).ok()?;
+        let u64_at = |d: &[u8], p: usize| -> Option<usize> { Some(u64::from_ne_bytes(d.get(p..p + 8)?.try_into().ok()?) as usize) };
+        let buckets = u64_at(&data, 22)?;
+        let mut pos = 30 + (buckets + 1) * 8;
+        // (header position, name, data start, data length)
+        let mut objs: Vec<(usize, Vec<u8>, usize, usize)> = Vec::new();
+        while pos + 33 <= data.len() {
+            let size = u64_at(&data, pos)?;
+            let empty = data[pos + 16] != 0;
+            let name_len = u64_at(&data, pos + 17)?; let data_len = u64_at(&data, pos + 25)?;
+            if size < 33 || pos + size > data.len() { break }
+            if !empty && pos + 33 + name_len + 32 + data_len <= data.len() {
+                objs.push((pos, data[pos + 33..pos + 33 + name_len].to_vec(), pos + 33 + name_len + 32, data_len));
+            }
+            pos += size;
+        }
+        let state = objs.iter().position(|o| o.1 == b"state");
+        let others: Vec<usize> = (0..objs.len()).filter(|i| Some(*i) != state && objs[*i].3 > 0).collect();
+        let name = match mode {
+            0 => { let s = state?; data[objs[s].2] = 0xee; "state-version-byte" }
+            1 => { let s = state?; data[objs[s].0 + 33 + 4] ^= 0x20; "state-object-renamed" }
+            2 => { if others.is_empty() { return None } let o = others[rng.usize(others.len())]; data[objs[o].0 + 16] = 2; "object-header-illegal-bool" }
+            _ => { if others.is_empty() { return None } let o = others[rng.usize(others.len())]; let at = objs[o].2 + rng.usize(objs[o].3); data[at] ^= 0x41; "object-data-byte" }
+        };
+        std::fs::write(&path, &data).ok()?;
+        done = Some(name.to_string());
+    }
+    done
+}
+
 fn run_c41(ctx: &mut Ctx, rep: &mut Report) {
     let fake = crate::net::https::FakeHttps::start().ok();
     let mut rng = ctx.rng("c41");
@@ -658,10 +702,11 @@ fn run_c41(ctx: &mut Ctx, rep: &mut Report) {
         let params = GenParams { tals: 1 + rng.usize(2), max_cas: 5 + rng.usize(8), max_depth: 1 + rng.usize(3), max_objects: 2 + rng.usize(4), repos, overlaps: rng.bool(), ..GenParams::default() };
         let w = generate(&mut rng, now_ts(), &params);
         let victim_repo = rng.usize(repos);
-        let kind = rng.usize(8);
+        let kind = rng.usize(9);
         // kind 7: the victim repository is an RRDP repository whose server misbehaves (both runs use RRDP for it)
+        // kind 8: the victim repository is an RRDP repository whose *local archive* is damaged between two runs
         let mut w = w;
-        if kind == 7 { for c in w.cas.iter_mut() { if c.repo == victim_repo && c.parent.is_some() { c.rrdp = true; } } }
+        if kind == 7 || kind == 8 { for c in w.cas.iter_mut() { if c.repo == victim_repo && c.parent.is_some() { c.rrdp = true; } } }
         let w = w;
         let mut w2 = w.clone();
         let in_repo: Vec<usize> = w.cas.iter().filter(|c| c.repo == victim_repo).map(|c| c.id).collect();
@@ -683,7 +728,7 @@ fn run_c41(ctx: &mut Ctx, rep: &mut Report) {
         }
         for c in &in_repo {
             match kind {
-                5 | 6 | 7 => {}
+                5 | 6 | 7 | 8 => {}
                 0 => w2.cas[*c].unreachable = true,
                 1 => apply_point_fault(&mut w2, *c, PointFault::MftAbsent, &mut rng),
                 2 => apply_point_fault(&mut w2, *c, PointFault::MftStale, &mut rng),
@@ -695,7 +740,49 @@ fn run_c41(ctx: &mut Ctx, rep: &mut Report) {
         let mut observed = Vec::new();
         let mut ok = true;
         let rrdp_fault = rng.usize(7);
+        let mut archive_mode = String::new();
+        if kind == 8 {
+            // same world twice over one cache; between the runs the local RRDP archive of the victim repository
+            // is damaged inside its extent.  The second run is driven like the one-shot commands drive it
+            // (retryable failure -> sanitize -> one more run).
+            let Some(fake) = fake.as_ref() else { rep.inconclusive("fake https not available"); continue };
+            let vh = w.notify_host(victim_repo).to_ascii_lowercase();
+            if (0..repos).any(|r| r != victim_repo && w.notify_host(r).to_ascii_lowercase() == vh) { continue }
+            let mut env = Env::new(&ctx.scratch.join("env"));
+            pol.apply(&mut env.config);
+            env.config.validation_threads = 1 + rng.usize(4);
+            let published = b.publish(&w);
+            env.serve(&published);
+            fake.clear();
+            fake.configure(&mut env.config);
+            env.config.rrdp_fallback = routinator::config::FallbackPolicy::Never;
+            let mut servers = crate::world::rrdpserve::RrdpServers::default();
+            servers.publish(&w, &published, fake, &BTreeMap::new());
+            ctx.begin_case(&json!({"case": i, "which": 0, "kind": 8}));
+            let out = run_engine(&env.config, true, &LocalExceptions::empty());
+            match out.snapshot { Some(s) => observed.push(observe(&s)), None => { rep.inconclusive("baseline run failed"); continue } }
+            match corrupt_local_archive(&env.config.cache_dir.join("rrdp"), &vh, &mut rng) {
+                Some(m) => archive_mode = m,
+                None => {
+                    rep.count("local archive damaged: skipped, the victim repository holds trust anchors only (no RRDP archive)", 1); continue
+                }
+            }
+            ctx.begin_case(&json!({"case": i, "which": 1, "kind": 8, "archive_fault": archive_mode}));
+            let (out, retried) = run_engine_retrying(&env.config, &LocalExceptions::empty());
+            archive_mode = format!("{archive_mode}|{}", if retried { "retried" } else { "no-retry" });
+            rep.count(&format!("local archive damaged: {archive_mode}"), 1);
+            match out.snapshot {
+                Some(s) => observed.push(observe(&s)),
+                None => {
+                    ok = false;
+                    rep.violation("C41/run-fails-on-corrupt-local-archive", format!(
+                        "the run (with the retry the one-shot commands make) fails after the local RRDP archive of repository {victim_repo} was damaged ({archive_mode})"),
+                        json!({"world": w, "victim_repo": victim_repo, "archive_fault": archive_mode}));
+                }
+            }
+        }
         for (which, ww) in [(0, &w), (1, &w2)] {
+            if kind == 8 { break }
             let mut env = Env::new(&ctx.scratch.join("env"));
             pol.apply(&mut env.config);
             env.config.validation_threads = 1 + rng.usize(4);
@@ -751,8 +838,8 @@ fn run_c41(ctx: &mut Ctx, rep: &mut Report) {
                     w.cas[c].repo, lost, gained), replay.clone());
             }
         }
-        rep.class(format!("kind{kind}|repos{repos}|{:?}|aff{}|unaff{}", pol.unsafe_vrps, affected.len().min(4), unaffected.min(4)));
-        let kind_s = ["unreachable", "manifests absent", "manifests stale", "all objects bad", "missing file", "CA chain deeper than max-ca-depth", "certificate loop", "RRDP server misbehaves"][kind];
+        rep.class(format!("kind{kind}{archive_mode}|repos{repos}|{:?}|aff{}|unaff{}", pol.unsafe_vrps, affected.len().min(4), unaffected.min(4)));
+        let kind_s = ["unreachable", "manifests absent", "manifests stale", "all objects bad", "missing file", "CA chain deeper than max-ca-depth", "certificate loop", "RRDP server misbehaves", "local RRDP archive damaged between runs"][kind];
         if rep.samples.len() < 2 { rep.sample(json!({"fault_kind": kind_s, "victim_repo": victim_repo, "affected_cas": affected, "unaffected_cas": unaffected})); }
     }
 }
